@@ -43,6 +43,11 @@ size_t vg_l1exit;     /* value of j when the main loop was left (hint for the st
 #ifdef VERIF_EXPAND_ANNOT
 # define EXP_ENTRY      size_t EXP_N = vg_nin;
 # define EXP_OFF(p)     __CPROVER_POINTER_OFFSET(p)
+/* env.h's VERIF_ANCHOR with the offset taken through a block-local first (cbmc 6.11's value-set
+ * simplifier recurses without end on  p = base + POINTER_OFFSET(p)  inside the argument-copy loop) */
+# define EXP_ANCHOR(p, base) do { size_t vq_o = __CPROVER_POINTER_OFFSET(p); \
+    __CPROVER_assert(__CPROVER_same_object((p), (base)), "anchor: " #p " stays inside object of " #base); \
+    (p) = (base) + vq_o; } while (0)
 /* pbuff is a cursor inside [s, s + N (+1 in the padded behaviour)] */
 # define EXP_PB(lim)    (__CPROVER_same_object(pbuff, s) && EXP_OFF(pbuff) <= (lim))
 # define EXP_L1_ASSIGNS __CPROVER_assigns(pbuff, j, k, l, in_single, in_double, cnt1, cnt2, tmp, tmp1, Command, Output, EnvVar, \
@@ -53,8 +58,8 @@ size_t vg_l1exit;     /* value of j when the main loop was left (hint for the st
 # define EXP_L1_CLAUSES EXP_L1_ASSIGNS \
     __CPROVER_loop_invariant(EXP_PB(EXP_N + vg_pad) && j <= CONFIG_BUFF && (EXP_L1_EXTRA)) \
     __CPROVER_decreases(EXP_N + 2 - EXP_OFF(pbuff))
-# define EXP_L1_TOP     VERIF_ANCHOR(pbuff, s); if (j <= vg_k) { vg_rel = vg_k - j; vg_src = EXP_OFF(pbuff) + vg_rel; }
-# define EXP_L1_AFTER   VERIF_ANCHOR(pbuff, s); vg_l1exit = j;
+# define EXP_L1_TOP     EXP_ANCHOR(pbuff, s); if (j <= vg_k) { vg_rel = vg_k - j; vg_src = EXP_OFF(pbuff) + vg_rel; }
+# define EXP_L1_AFTER   EXP_ANCHOR(pbuff, s); vg_l1exit = j;
 # define EXP_L2_CLAUSES __CPROVER_assigns(k, l) \
     __CPROVER_loop_invariant(k <= EXP_NB) __CPROVER_decreases(EXP_NB - k)
 # define EXP_L2_TOP
@@ -63,13 +68,13 @@ size_t vg_l1exit;     /* value of j when the main loop was left (hint for the st
     __CPROVER_loop_invariant(EXP_PB(EXP_N) && __CPROVER_same_object(tmp1, Command) && EXP_OFF(tmp1) < EXP_OFF(pbuff) \
                              && (EXP_OFF(tmp1) >= 1 || l == 1)) \
     __CPROVER_decreases(EXP_N - EXP_OFF(pbuff))
-# define EXP_L3_TOP     VERIF_ANCHOR(pbuff, s); VERIF_ANCHOR(tmp1, Command);
-# define EXP_L3_AFTER   VERIF_ANCHOR(pbuff, s); VERIF_ANCHOR(tmp1, Command); vg_nin = EXP_OFF(tmp1) - 1;
+# define EXP_L3_TOP     EXP_ANCHOR(pbuff, s); EXP_ANCHOR(tmp1, Command);
+# define EXP_L3_AFTER   EXP_ANCHOR(pbuff, s); EXP_ANCHOR(tmp1, Command); vg_nin = EXP_OFF(tmp1) - 1;
 # define EXP_L4_CLAUSES __CPROVER_assigns(pbuff, l, __CPROVER_object_whole(Command)) \
     __CPROVER_loop_invariant(EXP_PB(EXP_N) && l <= max) \
     __CPROVER_decreases(EXP_N - EXP_OFF(pbuff))
-# define EXP_L4_TOP     VERIF_ANCHOR(pbuff, s);
-# define EXP_L4_AFTER   VERIF_ANCHOR(pbuff, s); vg_nin = l;
+# define EXP_L4_TOP     EXP_ANCHOR(pbuff, s);
+# define EXP_L4_AFTER   EXP_ANCHOR(pbuff, s); vg_nin = l;
 # define EXP_L567_CLAUSES __CPROVER_assigns(pbuff, k, __CPROVER_object_whole(EnvVar)) \
     __CPROVER_loop_invariant(EXP_PB(EXP_N) && k <= 127) \
     __CPROVER_decreases(127 - k)
